@@ -495,7 +495,7 @@ KNOWN_CLASSES = {
 
 SUBCHECKS = [
     SubCheck("roundtrip", check_roundtrip, strategy=_roundtrip_strategy, enumerate=_roundtrip_enum,
-             budget={"quick": 20000, "thorough": 300000}, timeout={"quick": 5, "thorough": 5},
+             budget={"quick": 8000, "thorough": 300000}, timeout={"quick": 5, "thorough": 5},
              exhaustive="leaves {0,1,1.0,-2,0.5,'','a',\"'\",'\"'}; all lists/tuples of length 0 or 2 over the leaves; all "
                         "lists/tuples of length 3 over the leaves; all lists/tuples of length 2 over (leaves + those "
                         "containers) with at least one container element"),
